@@ -1,6 +1,7 @@
 package main
 
 import (
+	"errors"
 	"fmt"
 	"io"
 	"os"
@@ -39,10 +40,32 @@ type powerFS struct {
 	// self-test of the monitor (C10_CRASH_SELFTEST): a deliberately broken "disk"
 	dropLogSync bool // nosync: fsync of *.log files (tan logs, Pebble WAL) is not forwarded
 	dropDirSync bool // nodirsync: fsync of directories is not forwarded
+	// I/O error injection (tanio cases): the Write call number failLogWrite
+	// (0-based, counted over all Write/WriteAt calls on *.log files) returns an
+	// error and writes nothing; <0: never
+	failLogWrite int
+	logWrites    int
+	ioFired      bool
+}
+
+var errInjectedWrite = errors.New("c10: injected log file write error")
+
+// logWriteFails registers a write to a log file (p.mu is held).
+func (p *powerFS) logWriteFails(name string) bool {
+	if !strings.HasSuffix(name, ".log") {
+		return false
+	}
+	idx := p.logWrites
+	p.logWrites++
+	if p.failLogWrite >= 0 && idx == p.failLogWrite {
+		p.ioFired = true
+		return true
+	}
+	return false
 }
 
 func newPowerFS(mem *gvfs.MemFS, cut int, record bool) *powerFS {
-	p := &powerFS{mem: mem, cut: cut, record: record, open: map[*powerFile]struct{}{}}
+	p := &powerFS{mem: mem, cut: cut, record: record, open: map[*powerFile]struct{}{}, failLogWrite: -1}
 	switch os.Getenv("C10_CRASH_SELFTEST") {
 	case "nosync":
 		p.dropLogSync = true
@@ -148,6 +171,9 @@ func (f *powerFile) Write(b []byte) (int, error) {
 	if !f.p.note("write " + short(f.name)) {
 		return len(b), nil
 	}
+	if f.p.logWriteFails(f.name) {
+		return 0, errInjectedWrite
+	}
 	return f.File.Write(b)
 }
 
@@ -156,6 +182,9 @@ func (f *powerFile) WriteAt(b []byte, off int64) (int, error) {
 	defer f.p.mu.Unlock()
 	if !f.p.note("write " + short(f.name)) {
 		return len(b), nil
+	}
+	if f.p.logWriteFails(f.name) {
+		return 0, errInjectedWrite
 	}
 	return f.File.WriteAt(b, off)
 }
@@ -168,6 +197,12 @@ func (f *powerFile) Sync() error {
 		label = "syncdir "
 	}
 	if !f.p.note(label + short(f.name)) {
+		return nil
+	}
+	if f.closed {
+		// tan's sequentialSaveState returns on a write error without waiting for the
+		// fsync goroutines of the earlier updates of the call: such a straggler can
+		// arrive after the store was closed (the MemFS would crash on it)
 		return nil
 	}
 	if f.isDir && f.p.dropDirSync {
